@@ -14,6 +14,9 @@ sketch), clear, merge, inflate, enable/disable abundance, downsample_scaled / do
 C entry point `kmerminhash_set_abundances` (the other `kmerminhash_*` mutators delegate one-to-one
 to a method above).
 
+The register machine at the end (`Sk`, `RCmd`, `regsStep`) runs the same ops over ANY number of live
+sketches of either type, with copies (`Clone`, serde, `From`) landing next to their sources.
+
 The driver `Driver/C13.lean` runs exactly these step functions; `Theorems/C13.lean` quantifies over
 all command lists.
 -/
@@ -270,5 +273,107 @@ def Pair.step : Pair → PCmd → Pair × Out
   | .t q, .conv => (.v ⟨q.main.toVec, q.other.toVec⟩, .mins2 q.main.mins q.other.mins)
 
 def Pair.run (p : Pair) (cs : List PCmd) : Pair := cs.foldl (fun p c => (p.step c).1) p
+
+/-! ### a register file of independent sketches (value semantics)
+
+Any number of live sketches of either type.  A copy (`Clone`, the serde round trip, a `From`
+conversion) lands in ANOTHER register while its source stays alive; afterwards both are ordinary
+registers: each can be mutated, copied again and observed at any time, in any order.  There is no
+sharing in the model — a register's cache belongs to that register alone — which is exactly what the
+property demands of the code: every object reports the digest of ITS OWN current contents. -/
+
+inductive Sk
+  | v (x : Vec)
+  | t (x : Tree)
+
+def Sk.ksize : Sk → Nat
+  | .v x => x.ksize
+  | .t x => x.ksize
+
+def Sk.mins : Sk → List Nat
+  | .v x => x.mins
+  | .t x => x.mins
+
+/-- `md5sum()`: `(digest, self after the call)` -/
+def Sk.md5sum : Sk → Digest × Sk
+  | .v x => (x.md5sum.1, .v x.md5sum.2)
+  | .t x => (x.md5sum.1, .t x.md5sum.2)
+
+/-- `Clone`: `(copy, self after the call)` -/
+def Sk.clone : Sk → Sk × Sk
+  | .v x => (.v x.clone.1, .v x.clone.2)
+  | .t x => (.t x.clone.1, .t x.clone.2)
+
+/-- `from_str(to_string(&self))`: `(loaded, self after serialising)` -/
+def Sk.serde : Sk → Sk × Sk
+  | .v x => (.v x.serde.1, .v x.serde.2)
+  | .t x => (.t x.serde.1, .t x.serde.2)
+
+/-- the `From` conversion to the other type -/
+def Sk.conv : Sk → Sk
+  | .v x => .t x.toTree
+  | .t x => .v x.toVec
+
+def Sk.isTree : Sk → Bool
+  | .v _ => false
+  | .t _ => true
+
+/-- ops that read the operand sketch (or, `copy`, overwrite it) -/
+def Op.binary : Op → Bool
+  | .merge | .inflate | .addFrom | .removeFrom | .copy => true
+  | _ => false
+
+/-- a command of the register machine -/
+inductive RCmd
+  | on (i j : Nat) (op : Op)     -- `op` on register `i`, register `j ≠ i` as its operand (a binary op
+                                 -- needs both of one type; `copy` then puts the clone into `j`)
+  | eq (i j : Nat)               -- `reg i == reg j` (one type)
+  | dup (i j : Nat)              -- `reg j := reg i .clone()`; nothing is observed, both stay alive
+  | serdeTo (i j : Nat)          -- `reg j := from_str(to_string(&reg i))`
+  | convTo (i j : Nat) (viaClone : Bool)
+      -- `reg j := From(reg i .clone())`, or (tree sources only) `reg j := KmerMinHash::from(&reg i)`
+  | conv (i : Nat)               -- `reg i := From(reg i)`
+
+def regsStep (rs : List Sk) : RCmd → List Sk × Out
+  | .on i j op =>
+    if i == j then (rs, .badOp) else
+    match rs[i]?, rs[j]? with
+    | some (.v t), some (.v s) => let r := vecOp t s op; ((rs.set i (.v r.1)).set j (.v r.2.1), r.2.2)
+    | some (.t t), some (.t s) => let r := treeOp t s op; ((rs.set i (.t r.1)).set j (.t r.2.1), r.2.2)
+    | some (.v t), some (.t _) =>
+      if op.binary then (rs, .badOp) else let r := vecOp t t op; (rs.set i (.v r.1), r.2.2)
+    | some (.t t), some (.v _) =>
+      if op.binary then (rs, .badOp) else let r := treeOp t t op; (rs.set i (.t r.1), r.2.2)
+    | _, _ => (rs, .badOp)
+  | .eq i j =>
+    if i == j then (rs, .badOp) else
+    match rs[i]?, rs[j]? with
+    | some (.v a), some (.v b) => let r := a.eq b; ((rs.set i (.v r.2.1)).set j (.v r.2.2), .bool r.1)
+    | some (.t a), some (.t b) => let r := a.eq b; ((rs.set i (.t r.2.1)).set j (.t r.2.2), .bool r.1)
+    | _, _ => (rs, .badOp)
+  | .dup i j =>
+    if i == j || rs.length ≤ j then (rs, .badOp) else
+    match rs[i]? with
+    | some s => let r := s.clone; ((rs.set i r.2).set j r.1, .mins r.1.mins)
+    | none => (rs, .badOp)
+  | .serdeTo i j =>
+    if i == j || rs.length ≤ j then (rs, .badOp) else
+    match rs[i]? with
+    | some s => let r := s.serde; ((rs.set i r.2).set j r.1, .mins r.1.mins)
+    | none => (rs, .badOp)
+  | .convTo i j viaClone =>
+    if i == j || rs.length ≤ j then (rs, .badOp) else
+    match rs[i]? with
+    | some s =>
+      if viaClone then ((rs.set i s.clone.2).set j s.clone.1.conv, .mins s.mins)
+      else if s.isTree then (rs.set j s.conv, .mins s.mins)
+      else (rs, .badOp)
+    | none => (rs, .badOp)
+  | .conv i =>
+    match rs[i]? with
+    | some s => (rs.set i s.conv, .mins s.mins)
+    | none => (rs, .badOp)
+
+def regsRun (rs : List Sk) (cs : List RCmd) : List Sk := cs.foldl (fun rs c => (regsStep rs c).1) rs
 
 end Md5Cache
